@@ -34,6 +34,11 @@ type TypedInfo struct {
 	// MapRanges: file -> offset of a range statement over a map with string keys whose range expression is free of side
 	// effects (its iteration order is made deterministic)
 	MapRanges map[string]map[int]bool
+	// ElemRanges: file -> offset of a range statement with a value variable over a slice of galaxy structs (each iteration
+	// copies one element out of the backing array); AppendsInPlace: file -> offset of an assignment x = append(y[i:j], ...) to
+	// such a slice (elements are written into a backing array other holders may share)
+	ElemRanges     map[string]map[int]bool
+	AppendsInPlace map[string]map[int]bool
 	Errors []string
 }
 
@@ -76,7 +81,7 @@ func goListExports(repo string, pkgs []string) (map[string]string, error) {
 
 // TypeCheck computes the marks for the given packages. extra overrides file contents (repo-relative paths).
 func TypeCheck(repo string, pkgs []string, extra map[string]string) (*TypedInfo, error) {
-	ti := &TypedInfo{Fields: map[string]map[int]Mark{}, Derefs: map[string]map[int]Mark{}, MapRanges: map[string]map[int]bool{}}
+	ti := &TypedInfo{Fields: map[string]map[int]Mark{}, Derefs: map[string]map[int]Mark{}, MapRanges: map[string]map[int]bool{}, ElemRanges: map[string]map[int]bool{}, AppendsInPlace: map[string]map[int]bool{}}
 	exports, err := goListExports(repo, pkgs)
 	if err != nil {
 		return nil, err
@@ -169,6 +174,23 @@ func galaxyStruct(t types.Type) (*types.Named, bool) {
 	return n, true
 }
 
+// structSlice: is e a slice whose elements are galaxy structs (values, not pointers)?
+func structSlice(info *types.Info, e ast.Expr) bool {
+	tv, ok := info.Types[e]
+	if !ok {
+		return false
+	}
+	sl, ok := tv.Type.Underlying().(*types.Slice)
+	if !ok {
+		return false
+	}
+	if _, isPtr := sl.Elem().(*types.Pointer); isPtr {
+		return false
+	}
+	_, ok = galaxyStruct(sl.Elem())
+	return ok
+}
+
 // sideEffectFree: identifiers, selector chains, index expressions and dereferences of such (no calls, no receives).
 func sideEffectFree(e ast.Expr) bool {
 	switch v := e.(type) {
@@ -206,7 +228,29 @@ func markFile(fset *token.FileSet, f *ast.File, rel string, info *types.Info, ti
 	}
 	ast.Inspect(f, func(n ast.Node) bool {
 		switch v := n.(type) {
+		case *ast.AssignStmt:
+			if len(v.Lhs) == 1 && len(v.Rhs) == 1 && sideEffectFree(v.Lhs[0]) {
+				if call, ok := v.Rhs[0].(*ast.CallExpr); ok && len(call.Args) > 0 {
+					if id, ok := call.Fun.(*ast.Ident); ok && id.Name == "append" {
+						if _, isBuiltin := info.Uses[id].(*types.Builtin); isBuiltin {
+							if _, inPlace := call.Args[0].(*ast.SliceExpr); inPlace && structSlice(info, v.Lhs[0]) {
+								if ti.AppendsInPlace[rel] == nil {
+									ti.AppendsInPlace[rel] = map[int]bool{}
+								}
+								ti.AppendsInPlace[rel][fset.Position(v.Pos()).Offset] = true
+							}
+						}
+					}
+				}
+			}
+			return true
 		case *ast.RangeStmt:
+			if vid, ok := v.Value.(*ast.Ident); ok && vid.Name != "_" && v.Tok == token.DEFINE && sideEffectFree(v.X) && structSlice(info, v.X) {
+				if ti.ElemRanges[rel] == nil {
+					ti.ElemRanges[rel] = map[int]bool{}
+				}
+				ti.ElemRanges[rel][fset.Position(v.Pos()).Offset] = true
+			}
 			if tv, ok := info.Types[v.X]; ok && sideEffectFree(v.X) {
 				if m, ok := tv.Type.Underlying().(*types.Map); ok {
 					if b, ok := m.Key().Underlying().(*types.Basic); ok && b.Kind() == types.String {
